@@ -184,6 +184,10 @@ def done_escape_rule(A: Analysis, col: Collector, rule: str):
 STATUS_SETS = ("successful", "errored", "running", "queued", "unrunnable", "blocked")
 
 
+def _scan_sig(lp: ast.For) -> str:
+    return "+".join(sorted({a.attr for a in ast.walk(lp.iter) if isinstance(a, ast.Attribute)})) or "?"
+
+
 def pop_lands_rule(A: Analysis, col: Collector, rule: str):
     fn = A.func(f"{NODEEXEC}.update_status")
     col.scope(fn.qualname)
@@ -227,6 +231,38 @@ def pop_lands_rule(A: Analysis, col: Collector, rule: str):
                 col.ok(rule, f"update_status: `{src}` -> `{dest}` under `{cond}`", A.loc(c))
             else:
                 col.fail(rule, fn.qualname, f"wrong-destination:{src}->{dest}:{cond.replace(' ', '')[:40]}", f"a job leaving `{src}` is recorded in `{dest}` under condition `{cond}`", A.loc(c))
+    # per-iteration flags: a local assigned constant booleans that is read inside a scan loop must
+    # be (re)assigned on every path of the same iteration before it is read, otherwise the verdict
+    # on one job leaks into the following jobs of the scan
+    cfg = A.cfg(fn)
+    flags = {}
+    for n in walk_own(fn.node):
+        if isinstance(n, ast.Assign) and isinstance(n.value, ast.Constant) and isinstance(n.value.value, bool):
+            for t in n.targets:
+                if isinstance(t, ast.Name):
+                    flags.setdefault(t.id, []).append(n)
+    for lp in [n for n in walk_own(fn.node) if isinstance(n, ast.For)]:
+        heads = [n for n in cfg.nodes if n.kind == "loop" and n.stmt is lp]
+        for flag in sorted(flags):
+            readers = [n for n in cfg.nodes if n.stmt is not None and is_within(n.stmt, lp) and n.kind in ("test", "stmt", "return") and any(isinstance(x, ast.Name) and x.id == flag and isinstance(x.ctx, ast.Load) for e in n.exprs for x in [e] + list(walk_own(e)))]
+            writers = {n.id for n in cfg.nodes if n.kind == "stmt" and isinstance(n.stmt, ast.Assign) and is_within(n.stmt, lp) and any(isinstance(t, ast.Name) and t.id == flag for t in n.stmt.targets)}
+            for r in readers:
+                seen, st, stale = set(), [r], False
+                while st:
+                    n = st.pop()
+                    if n.id in seen:
+                        continue
+                    seen.add(n.id)
+                    if n is not r and n.id in writers:
+                        continue
+                    if n in heads:
+                        stale = True
+                        break
+                    st.extend(p for _, p in n.pred)
+                if stale:
+                    col.fail(rule, fn.qualname, f"flag-carried-across-iterations:scan-of-{_scan_sig(lp)}", f"the flag `{flag}` read in `{norm(r.stmt.test if r.kind == 'test' else r.stmt, 50)}` is not re-assigned on every path of the iteration: once set for one job it stays set for the following jobs of the scan, which are then classified like the first", A.loc(r.stmt))
+                else:
+                    col.ok(rule, f"update_status: flag `{flag}` is assigned on every path of an iteration before `{norm(r.stmt.test if r.kind == 'test' else r.stmt, 40)}` reads it", A.loc(r.stmt))
     # errored takes no part of 'done' of the node: NodeExecution.done == not (queued or blocked or running)
     nd = A.cls(NODEEXEC).find_method("done")
     rets = [n for n in walk_own(nd.node) if isinstance(n, ast.Return) and n.value is not None]
@@ -306,6 +342,7 @@ def readiness_rule(A: Analysis, col: Collector, rule: str, failure_part: bool, r
     # the tests
     fail_tests = []
     ready_tests = []
+    refresh_nodes = []
     for n in cfg.nodes:
         if n.kind != "test" or not isinstance(n.stmt, ast.If):
             continue
@@ -318,6 +355,15 @@ def readiness_rule(A: Analysis, col: Collector, rule: str, failure_part: bool, r
                 fail_tests.append(n)
         if _is_all_done(t, preds_var):
             ready_tests.append(n)
+            refresh_nodes.append(n)
+        elif isinstance(t, ast.Name):
+            # `flag = all(p.done for p in predecessors)` evaluated earlier, tested here
+            defs = [(k, pl) for k, pl in A.rs.local_defs(fn).get(t.id, [])]
+            if defs and all(k == "assign" and _is_all_done(pl, preds_var) for k, pl in defs):
+                ready_tests.append(n)
+                for m in cfg.nodes:
+                    if m.kind == "stmt" and isinstance(m.stmt, ast.Assign) and any(isinstance(x, ast.Name) and x.id == t.id for x in m.stmt.targets):
+                        refresh_nodes.append(m)
     starts = [n for n in cfg.nodes if any(isinstance(c.func, ast.Attribute) and c.func.attr == "start" and dotted(c.func.value) == "self" for c in _calls(n))]
     appends = [n for n in cfg.nodes if any(isinstance(c.func, ast.Attribute) and c.func.attr == "append" and any(isinstance(k, ast.Call) and isinstance(k.func, ast.Attribute) and k.func.attr == "pop" and "blocked" in norm(k.func.value) for k in ast.walk(c)) for c in _calls(n))]
     if not starts or not appends:
@@ -347,6 +393,20 @@ def readiness_rule(A: Analysis, col: Collector, rule: str, failure_part: bool, r
                 if starts_on_t:
                     what.append("starts-jobs")
                 col.fail(rule, fn.qualname, "upstream-failure-branch:" + "+".join(what), f"when a predecessor is errored/unrunnable the node {' and '.join(what)}", A.loc(ft.stmt))
+        # snapshot consistency: the statuses read by the failure test (`p.errored`, `p.unrunnable`
+        # are only brought up to date by update_status, which `.done` triggers) must not be older
+        # than those the readiness test sees: no status refresh between the failure test and start()
+        for ft in fail_tests:
+            fb = [m for l, m in ft.succ if l == "F"]
+            after = cfg.reachable_from(fb) if fb else set()
+            late = [r for r in refresh_nodes if r.id in after and r is not ft]
+            ids = {r.id for r in refresh_nodes}
+            if late:
+                col.fail(rule, fn.qualname, "failure-test-on-stale-statuses", f"the upstream-failure test reads `errored`/`unrunnable` before `{late[0].text(50)}` refreshes the predecessors' statuses: a predecessor that fails in between is seen as done but not as errored, the dependant is started, resolving its inputs raises and aborts the scheduling loop (independent jobs never run)", A.loc(late[0].stmt))
+            elif refresh_nodes and cfg.dominated_by(ft, lambda m: m.id in ids):
+                col.ok(rule, "the predecessors' statuses are refreshed (all(p.done ...)) before the upstream-failure test reads them, and not again before start()", A.loc(ft.stmt))
+            else:
+                col.fail(rule, fn.qualname, "failure-test-without-refresh", "the upstream-failure test is not preceded by a refresh of the predecessors' statuses", A.loc(ft.stmt))
         for s in starts + appends:
             if fail_tests and cfg.dominated_by_edge(s, lambda n: n in fail_tests, "F"):
                 col.ok(rule, f"`{s.text(40)}` is dominated by the no-upstream-failure branch", A.loc(s.stmt))
@@ -414,6 +474,24 @@ def error_aggregation_rule(A: Analysis, col: Collector, rule: str):
                         col.fail(rule, fn.qualname, "error-message-not-all-errors", "the final error does not include every collected error", A.loc(s))
     if not raised:
         col.fail(rule, fn.qualname, "errors-not-raised", "collected errors are not raised when the workflow finishes", A.loc(fn.node))
+    # the scheduling loop keeps going while spawned futures are pending: otherwise a failure
+    # whose future has not been collected yet is missing from the final error
+    inflight = None
+    for c in A.calls(fn):
+        if isinstance(c.func, ast.Attribute) and c.func.attr in ("add", "append") and c.args and isinstance(c.args[0], ast.Name) and isinstance(c.func.value, ast.Name):
+            defs = [p for k, p in A.rs.local_defs(fn).get(c.args[0].id, []) if k == "assign"]
+            if any(isinstance(d, ast.Call) and A.callee_names(d, fn) & {"asyncio.Task", "asyncio.create_task", "asyncio.ensure_future"} for d in defs):
+                inflight = c.func.value.id
+    outer = [n for n in walk_own(fn.node) if isinstance(n, ast.While) and any(is_within(c, n) for c in res_calls)]
+    if inflight and outer:
+        lp = max(outer, key=lambda n: n.end_lineno - n.lineno)
+        disj = lp.test.values if isinstance(lp.test, ast.BoolOp) and isinstance(lp.test.op, ast.Or) else [lp.test]
+        if any(isinstance(v, ast.Name) and v.id == inflight for v in disj):
+            col.ok(rule, f"the scheduling loop continues while spawned futures (`{inflight}`) are pending", A.loc(lp))
+        else:
+            col.fail(rule, fn.qualname, "loop-ends-with-pending-futures", f"the scheduling loop's condition `{norm(lp.test, 70)}` does not keep the loop alive while spawned futures (`{inflight}`) are pending: it can end as soon as every result is on disk, before the failed futures were collected, and the final error then does not name every failed job", A.loc(lp))
+    else:
+        col.fail(rule, fn.qualname, "no-inflight-collection", "spawned job futures are not tracked / the scheduling loop was not found", A.loc(fn.node))
     # WorkflowOutputs._from_job: iterate all nodes with errored, raise
     fj = A.func("pydra.compose.workflow.WorkflowOutputs._from_job")
     col.scope(fj.qualname)
@@ -593,6 +671,21 @@ def exactly_once_rule(A: Analysis, col: Collector, rule: str):
             col.ok(rule, "a job becomes runnable by `blocked.pop(...)`: it cannot be handed out twice", A.loc(c))
         else:
             col.fail(rule, gr.qualname, "runnable-not-popped-from-blocked", f"`{norm(c, 60)}` makes a job runnable without removing it from `blocked`", A.loc(c))
+    # jobs handed out but not started (cut off by tasks[:max_concurrent] or skipped by the spawn
+    # bound) must be offered again: the node returns its complete queued set, and newly runnable
+    # jobs are entered into it
+    rets = [n for n in walk_own(gr.node) if isinstance(n, ast.Return) and n.value is not None]
+    for r in rets:
+        roots = A.flow.derives(r.value, gr)
+        if "self.queued" in roots.attrs:
+            col.ok(rule, "NodeExecution.get_runnable_tasks returns the complete queued set: a job that was cut off by the concurrency limit is offered again", A.loc(r))
+        else:
+            col.fail(rule, gr.qualname, "queued-jobs-not-reoffered", f"NodeExecution.get_runnable_tasks returns `{norm(r.value, 40)}`, not the queued set: a job handed out once but not started (truncated by tasks[:max_concurrent] or skipped by the spawn bound) is never offered again and never runs", A.loc(r))
+    upd = [c for c in A.calls(gr) if isinstance(c.func, ast.Attribute) and c.func.attr == "update" and norm(c.func.value) == "self.queued"]
+    if upd:
+        col.ok(rule, "newly runnable jobs are entered into self.queued", A.loc(upd[0]))
+    else:
+        col.fail(rule, gr.qualname, "runnable-not-queued", "newly runnable jobs are not entered into self.queued", A.loc(gr.node))
     # async spawn de-duplication
     fn = A.func(f"{SUBMITTER}.expand_workflow_async")
     col.scope(fn.qualname)
